@@ -7,8 +7,8 @@ from props import register
 from props import httpcommon as hc
 
 HOSTS = {'a.test': '10.0.0.1', 'b.test': '10.0.0.2', 'www.b.test': '10.0.0.2', 'c.example': '10.0.1.1', 'deep.sub.c.example': '10.0.1.1'}
-CLIENTS = ['10.1.0.1', '10.1.0.2', '10.2.0.1', '192.168.5.5']
-PORTS = [80, 8000, 8080]
+CLIENTS = ['10.1.0.1', '10.1.0.2', '10.2.0.1', '192.168.5.5', '10.2.0.2', '10.1.1.0', '10.1.0.255', '11.0.0.0', '192.169.0.0']   # incl. the neighbours of every configured boundary
+PORTS = [80, 8000, 8080, 79, 81, 1024, 1025, 7999, 8001, 8079, 8081]   # configured values and the ports just below and above them
 METHODS = ['GET', 'POST', 'HEAD', 'PUT']
 
 def gen_acl(rng, name):
@@ -24,7 +24,7 @@ def gen_acl(rng, name):
         if '.sub.c.example' in vals and 'sub.c.example' in vals: vals.remove('sub.c.example')
         if '.b.test' in vals and 'a.test' in vals and '.test' in vals: vals = ['.test']
     elif t == 'port':
-        vals = rng.sample(['80', '8000', '8080', '8000-8080', '1-1024'], rng.randint(1, 2))
+        vals = rng.sample(['80', '8000', '8080', '8000-8080', '1-1024', '80-81', '8001-8079'], rng.randint(1, 2))
     else:
         vals = rng.sample(METHODS, rng.randint(1, 2))
     return {'name': name, 'type': t, 'vals': vals}
@@ -76,7 +76,7 @@ class C45(hc.PProp):
     id = 'C45'
     rule = ('each run = a random http_access section: 2-5 ACLs of type src (addresses, CIDR, ranges), dst, dstdomain, port, method over a small universe and '
             '1-6 allow/deny rules with 1-3 possibly negated ACLs each; 8-30 requests drawn from 4 client addresses, 5 host names (resolved through the hosts '
-            'file), 3 ports, 4 methods. The reference is a first-match evaluator (no match: opposite of the last rule). non-trivial = at least one allowed and '
+            'file), 11 ports (the configured values and their neighbours), 4 methods. The reference is a first-match evaluator (no match: opposite of the last rule). non-trivial = at least one allowed and '
             'one denied request were judged; distinct = history fingerprint')
     quick_runs = 240
     thorough_runs = 6000
